@@ -974,3 +974,8 @@ def run(ctx):
     for lens in ([2], [3], [2, 2], [3, 2]):
         for _ in range(2 if q else 10):
             C15.mdd_ops(ctx, lens, 40 if q else 100, P='C17', rejected=0.25)
+    # the full table met THROUGH dd.autoref (model and implementation; the stream of
+    # C08; last, so that the streams above are the same cases as before for a given seed)
+    from . import C08
+    for i in range(4 if q else 40):
+        C08.full_table_autoref(ctx, i, rng.choice([3, 4]), reordering=(i % 4 == 3), P='C17')
